@@ -392,6 +392,20 @@ pub fn run(ctx: &mut Ctx) {
     };
     let fault_letters: Vec<usize> = (0..LETTERS.len()).filter(|l| !LETTERS[*l].starts_with("req:") && LETTERS[*l] != "valid").collect();
     for n in [1usize, 2, 3] {
+        // baseline: a fresh pool with no history at all must pass both probes; if it does not,
+        // every history would fail for the same reason - report that once and go on
+        {
+            let o = run_history_h(n, &[], SLOW);
+            if o.simultaneous < n || o.probe_valid != "answered" {
+                let j = history_json(n, &[]);
+                if ctx.begin(format!("baseline\0{}", j).as_bytes()) {
+                    ctx.nontrivial();
+                    ctx.outcome(&format!("N={}:baseline-fails", n));
+                    ctx.fail("C06:A:a-fresh-pool-cannot-serve-as-many-simultaneous-connections-as-it-has-workers", || j.clone(), format!("workers={}: {} simultaneous, valid-request probe: {}", n, o.simultaneous, o.probe_valid));
+                }
+                continue;
+            }
+        }
         let full_len = if n <= 2 || thorough { n + 1 } else { 2 };
         for len in 0..=full_len {
             enumerate::sequences_exact(LETTERS.len(), len, &mut |idx| go(ctx, n, idx.to_vec()));
